@@ -20,6 +20,7 @@ MAY_PANIC = [
     (r'^<std::time::Instant as std::ops::Sub', 'time'),
     (r'^<std::iter::StepBy|^<[^>]*>::step_by$|^<[^>]*>::chunks(_exact)?$|^<[^>]*>::windows$', 'zero_step'),
     (r'^<std::sync::Mutex<T>>::lock$', 'lock'),
+    (r'^<(isize|i8|i16|i32|i64|i128)>::abs$', 'abs_min'),          # panics for the MIN value when overflow checks are on (inherited from the caller)
 ]
 MAY_PANIC = [(re.compile(r), k) for r, k in MAY_PANIC]
 
@@ -133,10 +134,17 @@ def describe_def(B, l, depth=0):
     return describe_local(B, l, depth) if not B.local_name(l) else None
 
 
-def excuse_applies(B, entry):
-    """(reason, problem): an excuse may demand that named locals still have the definitions its invariant relies on"""
+def excuse_applies(B, entry, bb=None):
+    """(reason, problem): an excuse may demand that named locals still have the definitions its invariant relies on, and (requires_facts, with the block of the
+    site) that given branch facts dominate the site"""
     if isinstance(entry, str):
         return entry, None
+    if entry.get('requires_facts') and bb is not None:
+        from errguard import structural_facts
+        have = {'%s=%s' % (d, v) for d, v in structural_facts(B, bb)}
+        for want in entry['requires_facts']:
+            if want not in have:
+                return entry['reason'], 'the excuse requires the dominating fact %s; the site is reached under %s' % (want, sorted(have))
     req = entry.get('requires', {})
     for name, want in req.items():
         ls = [i for i in range(len(B.locals)) if B.local_name(i) == name]
@@ -718,6 +726,36 @@ def _excuses():
         return engine.load_table('panic_excuses.json')
     except FileNotFoundError:
         return {}
+
+
+def no_panic_helpers(rep, F, cg, select, rule='NO-PANIC-HELPERS', floor=10):
+    """`none of these panics`: every potential panic site in the selected helper functions is discharged by an idiom or excused by one table line"""
+    rep.rule(rule, 'in the selected public helpers every potential panic site (MIR overflow / bounds Assert, unwrap / expect, indexing, abs of a signed integer ...) is '
+             'discharged by a recognised dominating-guard idiom or excused by exactly one table line stating the arithmetic invariant')
+    exc = _excuses()
+    n = 0
+    for name in sorted(cg.names()):
+        b = F.bodies[name]
+        root = b.get('root') if b['kind'] == 'Closure' else name
+        if not root or not select(root):
+            continue
+        B = cg.body(name)
+        for s in panic_sites(B):
+            if s.kind == 'ptrcheck':
+                continue
+            n += 1
+            t = B.term(s.bb)
+            why = discharge(B, s, t)
+            key = 'panic:' + s.key
+            desc = 'potential panic `%s` in %s' % (s.desc, s.fn)
+            if why:
+                o = rep.add(rule, key, desc, True, s.loc)
+                o.witness = ['discharged: ' + why]
+            elif s.key in exc and excuse_applies(B, exc[s.key], s.bb)[1] is None:
+                rep.excuse(rule, key, desc, excuse_applies(B, exc[s.key], s.bb)[0], s.loc)
+            else:
+                rep.add(rule, key, desc, False, s.loc, '%s: `%s` can panic for some input and no dominating guard idiom or table invariant discharges it' % (s.fn, s.desc))
+    rep.floor(rule, 'potential panic sites', n, floor)
 
 
 def no_panic_under_guard(rep, F, A, write_only=False):
